@@ -123,12 +123,12 @@ class ImperfectParticleNumberMeasurement(Measurement):
             return
 
         if detector_efficiency_matrix.ndim != 2:
-            raise ValueError(
+            raise InvalidParameter(
                 "The detector efficiency matrix must be a two-dimensional array."
             )
 
         if np.any(detector_efficiency_matrix < 0.0):
-            raise ValueError(
+            raise InvalidParameter(
                 "The detector efficiency matrix must contain non-negative "
                 "probabilities."
             )
@@ -136,7 +136,7 @@ class ImperfectParticleNumberMeasurement(Measurement):
         column_sums = np.sum(detector_efficiency_matrix, axis=0)
 
         if not np.all(np.isclose(column_sums, 1.0)):
-            raise ValueError(
+            raise InvalidParameter(
                 "Each column of the detector efficiency matrix must sum to 1. "
                 "Column m gives the probabilities of detected counts conditioned "
                 "on actual photon count m."
